@@ -462,16 +462,25 @@ pub fn sort_by<T, F: FnMut(&T, &T) -> std::cmp::Ordering>(v: &mut [T], mut f: F)
 
 pub const SMALL_CAP: usize = 4;
 
+// Four scalar fields instead of an inline array: with `[T; 4]` nested inside the
+// Option<(K, V)> slots of the map model CBMC 6.11 lost a stored element when two
+// states were merged after an (unreachable) conditional push - see attic/README.md.
 #[derive(Clone, Debug)]
 pub struct SmallSeq<T: Copy + Default> {
-  items: [T; SMALL_CAP],
+  v0: T,
+  v1: T,
+  v2: T,
+  v3: T,
   len: usize,
 }
 
 impl<T: Copy + Default> Default for SmallSeq<T> {
   fn default() -> Self {
     SmallSeq {
-      items: [T::default(); SMALL_CAP],
+      v0: T::default(),
+      v1: T::default(),
+      v2: T::default(),
+      v3: T::default(),
       len: 0,
     }
   }
@@ -491,24 +500,25 @@ impl<T: Copy + Default> SmallSeq<T> {
   }
 
   pub fn push(&mut self, v: T) {
-    if self.len >= SMALL_CAP {
-      panic!("VERIF-MODEL: SmallSeq model capacity exceeded");
-    }
-    let mut i = 0;
-    while i < SMALL_CAP {
-      if i == self.len {
-        self.items[i] = v;
-      }
-      i += 1;
+    match self.len {
+      0 => self.v0 = v,
+      1 => self.v1 = v,
+      2 => self.v2 = v,
+      3 => self.v3 = v,
+      _ => panic!("VERIF-MODEL: SmallSeq model capacity exceeded"),
     }
     self.len += 1;
   }
 
   pub fn get(&self, i: usize) -> Option<T> {
-    if i < self.len {
-      Some(self.items[i])
-    } else {
-      None
+    if i >= self.len {
+      return None;
+    }
+    match i {
+      0 => Some(self.v0),
+      1 => Some(self.v1),
+      2 => Some(self.v2),
+      _ => Some(self.v3),
     }
   }
 }
